@@ -21,6 +21,9 @@ func init() {
 	register("C06", "T-SHAPE", ruleTShape)
 	register("C06", "T-DEPTH", ruleTDepth)
 	register("C06", "T-LOOP", ruleTLoop)
+	register("C06", "T-WORK", ruleTWork)
+	register("C06", "T-ERRFLOW", ruleErrFlow)
+	register("C06", "T-STRING", ruleTString)
 
 	// C05 = the C04 non-interference argument + build-time write census + cache lockset
 	register("C05", "S-ENTRY", ruleSEntry)
@@ -31,6 +34,7 @@ func init() {
 	register("C05", "S-GLOBAL", ruleSGlobal)
 	register("C05", "S-POOL", ruleSPool)
 	register("C05", "K-LOCK", ruleKLock)
+	register("C05", "S-CALLER", ruleSCaller)
 
 	register("C16", "K-LOCK", ruleKLock)
 	register("C16", "K-REST", ruleKRest)
@@ -57,6 +61,9 @@ func init() {
 	register("C01", "S-CLONE", ruleSClone)
 	register("C01", "S-ENTRY", ruleSEntry)
 	register("C01", "B-DEDUP", ruleDedup)
+	register("C01", "B-HASH", ruleBHash)
+	register("C01", "N-REJECT", ruleNReject)
+	register("C01", "N-NODROP", ruleNoDrop)
 
 	register("C15", "X-CENSUS", ruleXCensus)
 	register("C15", "X-TOTAL", ruleXTotal)
@@ -73,6 +80,8 @@ func init() {
 	register("C09", "S-SHARED", ruleSShared)
 	register("C09", "S-WRITES", ruleSWritesRT)
 	register("C09", "S-POOL", ruleSPool)
+	register("C09", "C09-ROUND", ruleSubstrRound)
+	register("C09", "C08-FIRST", ruleConvFirst)
 
 	register("C08", "A-OPS", ruleAOps)
 	register("C08", "B-PRIM", ruleBPrim)
@@ -80,17 +89,22 @@ func init() {
 	register("C08", "N-RESTORE", ruleNRestore)
 	register("C08", "X-CENSUS", ruleXCensus)
 	register("C08", "C08-FMT", ruleNumFormat)
+	register("C08", "C08-FIRST", ruleConvFirst)
+	register("C08", "C08-LIT", ruleNumLiteral)
 	register("C08", "S-SHARED", ruleSShared)
 	register("C08", "S-WRITES", ruleSWritesRT)
 
 	register("C14", "B-NAMETEST", ruleBNameTest)
 	register("C14", "G-EXPECT", ruleGExpect)
+	register("C14", "C14-NSMAP", ruleNSMap)
 	register("C14", "B-PRIM", ruleBPrim)
 	register("C14", "B-ARGS", ruleBArgs)
 	register("C14", "S-SHARED", ruleSShared)
 	register("C14", "S-WRITES", ruleSWritesRT)
 
 	register("C03", "N-POS", ruleNPos)
+	register("C03", "G-PREDS", ruleGPreds)
+	register("C03", "A-SMART", ruleASmart)
 	register("C03", "S-RESET", ruleSReset)
 	register("C03", "A-DISPATCH", ruleADispatch)
 	register("C03", "N-OWN", ruleNOwn)
@@ -101,6 +115,8 @@ func init() {
 	register("C12", "S-ENTRY", ruleSEntry)
 	register("C12", "N-OWN", ruleNOwn)
 	register("C12", "C12-REV", ruleRev)
+	register("C12", "C12-EVAL", ruleExprEvaluate)
+	register("C12", "N-REJECT", ruleNReject)
 	register("C12", "B-PRIM", ruleBPrim)
 	register("C12", "N-DEPTH", ruleNDepth)
 	register("C12", "S-SHARED", ruleSShared)
@@ -119,6 +135,10 @@ func init() {
 	register("C13", "N-PEER", ruleNPeer)
 	register("C13", "N-ITER", ruleNIter)
 	register("C13", "S-RESET", ruleSReset)
+	register("C13", "B-HASH", ruleBHash)
+	register("C13", "C03-MERGE", ruleMerge)
+	register("C13", "N-NODROP", ruleNoDrop)
+	register("C13", "B-DEDUP", ruleDedup)
 
 	register("C07", "A-OPS", ruleAOps)
 	register("C07", "A-CELLS", ruleACells)
@@ -131,11 +151,18 @@ func init() {
 	register("C07", "S-WRITES", ruleSWritesRT)
 
 	register("C17", "G-PAIR", ruleGPair)
+	register("C17", "T-ERRFLOW", ruleErrFlow)
+	register("C17", "B-ARITY", ruleBArityMin)
 	register("C17", "G-EXPECT", ruleGExpect)
 	register("C17", "T-RECOVER", ruleTRecover)
 	register("C17", "B-ARGS", ruleBArgs)
 	register("C17", "X-TOTAL", ruleXTotal)
 
+	register("C02", "G-PREDS", ruleGPreds)
+	register("C02", "A-CELLS", ruleACells)
+	register("C02", "A-OPS", ruleAOps)
+	register("C02", "C07-BOOL", ruleBoolConv)
+	register("C02", "G-LEVELS", ruleGLevels)
 	register("C02", "S-RESET", ruleSReset)
 	register("C02", "S-PROP", ruleSProp)
 	register("C02", "S-SHARED", ruleSShared)
